@@ -605,7 +605,7 @@ func (h *Sources) match(match *core.Line, cur *core.Cursor, usePos, fwd, regex b
 
 		cline := string(*match)
 		if cur != nil && cur.Pos() < match.Len() {
-			cline = cline[:cur.Pos()]
+			cline = string((*match)[:cur.Pos()])
 		}
 
 		// Matching: either as substring (regex) or since beginning.
